@@ -9,6 +9,22 @@ import lib, tables, etf_common as E
 PID = "C07"
 
 
+def reduce_big(v, f, op, mode):
+    """a summarised big frame (body without the length prefix: head, total length, trailing run of 7s) -> the same frame with a 3-byte
+    binary as payload, after checking that the binary's length field and the frame length agree with the 6 MB that were sent"""
+    n = op.get("inflate")
+    head = f["head"]
+    case = {"operation": op["op"], "mode": mode, "payload_bytes": n, "frame_bytes_read_by_peer": f["len"], "trailing_payload_bytes": f["run_of_7"]}
+    if n is None or f["run_of_7"] < n:
+        v.violation("a frame with a large payload arrived incomplete or with other content than was sent", case)
+        return head[:40]
+    cut = f["len"] - n                      # bytes before the payload's content
+    if cut < 5 or cut > len(head) or head[cut - 5] != 109 or int.from_bytes(bytes(head[cut - 4:cut]), "big") != n:
+        v.violation("the binary payload of a large frame is not announced with its length where the encoding puts it", {**case, "head": head[:64]})
+        return head[:40]
+    return head[:cut - 4] + [0, 0, 0, 3, 7, 7, 7]
+
+
 def run(tier, seed):
     v = lib.Verdict(PID, tier, seed, "model_checking")
     thorough = tier == "thorough"
@@ -16,8 +32,10 @@ def run(tier, seed):
     mc = lib.tlc_expect_ok("mc/MC_Connection.tla", "mc/MC_Connection.cfg" if thorough else "mc/MC_Connection_quick.cfg", PID, "mc")
     lib.tlc_expect_ok("mc/MC_Connection.tla", "mc/MC_Connection_unconnected.cfg", PID, "mc_unconnected")
     adv = lib.tlc_expect_violation("mc/MC_Connection.tla", "mc/MC_Connection_nolock.cfg", PID, "mc_nolock", "FramesIntact")
+    lib.tlc_expect_violation("mc/MC_Connection.tla", "mc/MC_Connection_shortwrite.cfg", PID, "mc_shortwrite", "FramesIntact")
     v.cov["states"], v.cov["transitions"] = mc.distinct, mc.generated
-    v.cov["mc_configs"] = [{"cfg": "MC_Connection", "distinct": mc.distinct, "generated": mc.generated, "result": "FramesIntact, OrderPerTask, NoWriteBeforeConnected hold under every interleaving of the partial writes"},
+    v.cov["mc_configs"] = [{"cfg": "MC_Connection_shortwrite", "result": "counterexample to FramesIntact when an operation may return after a short write (exercised on the real connection with 6 MB payloads)"},
+                           {"cfg": "MC_Connection", "distinct": mc.distinct, "generated": mc.generated, "result": "FramesIntact, OrderPerTask, NoWriteBeforeConnected hold under every interleaving of the partial writes"},
                            {"cfg": "MC_Connection_nolock", "result": "counterexample to FramesIntact without the per-connection lock (schedule: second task starts writing while the first is between two writes)"}]
     # ---- single task: all operations
     op_path = os.path.join(lib.outdir(PID), "ops.ndjson")
@@ -25,6 +43,12 @@ def run(tier, seed):
     if r.rc != 0:
         raise lib.ToolError("operation generator failed")
     ops = lib.read_ndjson(op_path)
+    # frames larger than the socket buffers (the kernel takes a write in pieces): the same operations with a 6 MB binary as payload;
+    # what the peer reads is reduced to a 3-byte binary before it goes to the TLA+ reader
+    BIG = 6 * 1024 * 1024
+    small = {"k": "bin", "b": [7, 7, 7]}
+    for proto in [o for o in ops if o["op"] == "send"][:1] + [o for o in ops if o["op"] == "send_to_name"][:1]:
+        ops.append({**proto, "c": small, "payload": [small], "inflate": BIG})
     for i, o in enumerate(ops):
         o["id"] = i
     lib.write_ndjson(op_path, ops)
@@ -36,7 +60,10 @@ def run(tier, seed):
     # frames -> TLA+ reader
     to_parse = []
     for j, o in enumerate(obs):
-        for f in o["frames"]:
+        for fi, f in enumerate(o["frames"]):
+            if isinstance(f, dict):
+                f = reduce_big(v, f, ops[o["id"]], o["mode"])
+                o["frames"][fi] = f
             to_parse.append({"id": len(to_parse), "obs": j, "bytes": f})
     ip = os.path.join(lib.outdir(PID), "wire_in.ndjson")
     pp = os.path.join(lib.outdir(PID), "wire_out.ndjson")
@@ -63,7 +90,10 @@ def run(tier, seed):
             continue
         frames = by_obs.get(j, [])
         if len(frames) != 1:
-            v.violation(f"the operation wrote {len(frames)} frames instead of exactly one", case)
+            if op.get("inflate") and not frames:
+                v.violation("a frame with a 6 MB payload did not arrive whole: the peer could not read the number of bytes its length prefix announces", case)
+            else:
+                v.violation(f"the operation wrote {len(frames)} frames instead of exactly one", case)
             continue
         f = frames[0]
         if not f["ok"]:
